@@ -17,6 +17,7 @@ struct layout); they appear because the Model's lists are unbounded.
 -/
 import Proofs.ImplV2Lists
 import Proofs.ImplV1Roundtrip
+import Proofs.ZlibCompressLoop
 
 namespace EngineModel.Properties.C03
 open EngineModel EngineModel.Codec EngineModel.V2 EngineModel.Impl.V2
@@ -343,5 +344,42 @@ example : (⟨0x4090000000000000, [⟨1, 2, 3, 255, 255, 255⟩, ⟨9, 8, 7, 255
     < maxCount := by decide
 
 end V1
+
+/-! ## the framing on the way out: `zlib_compress` drops nothing
+
+`Impl/ZlibCompress.lean` mirrors the prefix and the two nested `do … while` loops of `zlib_compress`
+over an abstract `deflate` oracle.  For every oracle honouring the explicit call contract
+`DContract` (sizes, a finite output potential, "input is only left behind when the output buffer was
+filled", "a `Z_FINISH` call that did not fill the buffer returns `Z_STREAM_END`"; a structure
+parameter — not an axiom), every initial live stream state and every payload: the loops terminate
+within an explicit fuel bound linear in the payload, the blob is the 4-byte length followed by ALL
+output of ALL calls in order, every payload byte was consumed by some call, and the last call was a
+`Z_FINISH` call that reported the end of the stream — i.e. what is written is a complete stream.
+The tie replays the recorded `deflate()` calls of the real library through this Model on every run. -/
+section Compress
+open EngineModel.Impl.Zlib
+
+theorem C03_compress_complete {σ : Type} (o : DOracle σ) (c : DContract o) (s0 : σ) (hs0 : c.live s0)
+    (buf : Bytes) (fuel : Nat) (hf : cFuelBound c s0 buf.length ≤ fuel) :
+    ∃ blob log, compress o s0 fuel buf = .ok (blob, log) ∧
+      blob = lenPrefix buf.length ++ log.flatMap (·.out) ∧
+      (log.map (·.consumed)).sum = buf.length ∧
+      ∃ d, log.getLast? = some d ∧ d.flush = .finish ∧ d.ret = .streamEnd :=
+  compress_complete o c s0 hs0 buf fuel hf
+
+/-- The contract is satisfiable and the fuel bound explicit (pass-through oracle: `4·n + 2`). -/
+example : cFuelBound storeContract () 100000 = 400002 := by decide
+
+/-- Repeating the inner loop "until the input chunk is consumed" instead of "while the output
+buffer was filled" is wrong for an oracle that honours the same contract: with more than one
+buffer of output pending at `Z_FINISH`, all input is consumed, one buffer is collected, the loop
+leaves, and the stream is left unfinished (output dropped). -/
+theorem C03_compress_avail_in_condition_counterexample (fuel : Nat) :
+    ∃ acc d1 d2, cloopBad bufOracle (List.replicate (chunk + 1) 0) (fuel + 4) ⟨[], false⟩ 0 .outer [] []
+        = .ok (acc, [d1, d2]) ∧
+      acc.length = chunk ∧ d1.consumed + d2.consumed = chunk + 1 ∧ d2.flush = .finish ∧ d2.ret = .ok :=
+  compress_avail_in_condition_drops_output fuel
+
+end Compress
 
 end EngineModel.Properties.C03
